@@ -13,6 +13,7 @@ import ALV.Lemmas.C12Hist
 import ALV.Lemmas.C12Call
 import ALV.Lemmas.C12Pole
 import ALV.Lemmas.C12Link
+import ALV.Lemmas.C12Src
 import Mathlib.Analysis.SpecialFunctions.Complex.Arg
 import ALV.Common.Audit
 
@@ -784,6 +785,98 @@ theorem dft_dc_mean_field {K : Type} [Field K] (blk : List K) (h : blk ≠ []) :
   have hl : blk.length ≠ 0 := by simpa using h
   simp [dft, hl, dftSum_pw, evalDirect_one]
 
+/-! ### 12. the model is what the SOURCE says now
+
+`harness/props/c12_tr.py` reads the bodies, decorators and signatures of the four anchored functions
+from the repo under test with `ast` and rewrites `ALV/Gen/C12Src.lean` on every check.  Each generated
+definition is the hand-written model function, so every theorem above is a theorem about the
+regenerated definitions; an edit of the source that changes the meaning breaks one of these. -/
+
+section src
+variable {α φ : Type} [Add α] [Mul α] [Sub α] [Neg α] [Div α] [OfNat α 0] [OfNat α 1] [DecidableEq α]
+
+/-- **C12.12a** the body of `LinearFilter.freq_response` as read from the source (the point
+`complex_exp(-1j * freq)`, `numpoly` / `denpoly` called at it, `den == 0` → nan, else `num / den`) is
+`freqResponse` at the point `exp(-1j*freq)`. -/
+theorem src_linear_freq_response_is_model (X : CExp φ α) :
+    ALV.Gen.C12.LinearFilter_freq_response X =
+      fun (self : Filt α) (freq : φ) => freqResponse self (X.pt freq) := rfl
+
+/-- **C12.12b** the body of `CascadeFilter.freq_response` as read from the source
+(`reduce(operator.mul, (filt.freq_response(freq) for filt in self.callables))`) is the cascade case of
+`Bank.resp` (members answer recursively) and the flat `cascadeResp`. -/
+theorem src_cascade_freq_response_is_model (pt : φ → α) (ms : List (Bank α)) (freq : φ)
+    (bank : List (List α × List α)) (w : α) :
+    ALV.Gen.C12.CascadeFilter_freq_response (fun m f => Bank.resp (pt f) m) ms freq
+        = Bank.resp (pt freq) (.cascade ms) ∧
+      ALV.Gen.C12.CascadeFilter_freq_response (fun (f : List α × List α) (v : α) => respOfFilter f.1 f.2 v) bank w
+        = cascadeResp bank w := by
+  refine ⟨?_, rfl⟩
+  simp only [ALV.Gen.C12.CascadeFilter_freq_response, Bank.resp, Bank.respList_eq_map]
+
+/-- **C12.12c** likewise `ParallelFilter.freq_response` (`reduce(operator.add, …)`). -/
+theorem src_parallel_freq_response_is_model (pt : φ → α) (ms : List (Bank α)) (freq : φ)
+    (bank : List (List α × List α)) (w : α) :
+    ALV.Gen.C12.ParallelFilter_freq_response (fun m f => Bank.resp (pt f) m) ms freq
+        = Bank.resp (pt freq) (.parallel ms) ∧
+      ALV.Gen.C12.ParallelFilter_freq_response (fun (f : List α × List α) (v : α) => respOfFilter f.1 f.2 v) bank w
+        = parallelResp bank w := by
+  refine ⟨?_, rfl⟩
+  simp only [ALV.Gen.C12.ParallelFilter_freq_response, Bank.resp, Bank.respList_eq_map]
+
+/-- **C12.12d** the body of `dft` as read from the source (the generator of
+`sum(xn * cexp(-1j * n * f) for n, xn in enumerate(blk))` over `freqs`, `if normalize:` the division
+of every value by `len(blk)`, else the list) is the model `dft` with the kernel `cexp(-1j*n*f)`. -/
+theorem src_dft_is_model (X : CExp φ α) : ALV.Gen.C12.dft X = dft X.kern := by
+  funext blk freqs normalize
+  have h : ∀ f, sumEnum (fun n xn => xn * X.cis (-1) n f) blk = dftSum (X.kern f) blk :=
+    fun f => sumEnum_mul _ blk
+  cases normalize with
+  | false => simp only [ALV.Gen.C12.dft, dft, h, Bool.false_eq_true, if_false]
+  | true => simp only [ALV.Gen.C12.dft, dft, h, if_true, divAll_map]
+
+/-- **C12.12e** the three `freq_response` methods as DECORATED in the source (`@elementwise("freq", 1)`
+around `def freq_response(self, freq)`: the decorator's name and position, the parameter list python
+binds) are the call model `freqCall`. -/
+theorem src_freq_response_call_is_model (pt : φ → α) (t : Bank α) :
+    ALV.Gen.C12.LinearFilter_freq_response_call pt t = freqCall pt t ∧
+    ALV.Gen.C12.CascadeFilter_freq_response_call pt t = freqCall pt t ∧
+    ALV.Gen.C12.ParallelFilter_freq_response_call pt t = freqCall pt t := by
+  have h : ∀ (R : φ → Resp α) (leaf : Bool), rawFreqByP ["self", "freq"] 1 R leaf = rawFreqBy R leaf :=
+    fun R leaf => funext fun a => funext fun k => rawFreqByP_self_freq R leaf a k
+  refine ⟨?_, ?_, ?_⟩ <;> funext args kw
+  · simp only [ALV.Gen.C12.LinearFilter_freq_response_call, freqCall, rawFreq, h]
+  · simp only [ALV.Gen.C12.CascadeFilter_freq_response_call, freqCall, rawFreq, h]
+  · simp only [ALV.Gen.C12.ParallelFilter_freq_response_call, freqCall, rawFreq, h]
+
+/-- **C12.12f** the signature of `dft` as read from the source is `(blk, freqs, normalize=True)`: the
+names `bindDft` binds and the default `dftCall` takes for an omitted `normalize`. -/
+theorem src_dft_signature_is_model :
+    ALV.Gen.C12.dft_params = dftSignature ∧
+    (∀ (V : Type) (args : List V) (kw : List (String × V)),
+      bindDftP (ALV.Gen.C12.dft_params.map (·.1)) args kw = bindDft args kw) ∧
+    (∀ (kern : φ → ℕ → α) (bk : BlkKind) (blk : List α) (freqs : Option (List φ)),
+      dftCall kern bk blk freqs none = dftCall kern bk blk freqs (sigDefault ALV.Gen.C12.dft_params "normalize")) :=
+  ⟨rfl, fun _ args kw => bindDftP_signature args kw, fun _ _ _ _ => rfl⟩
+
+end src
+
+/-- **C12.12g** consequently the property holds of the REGENERATED definitions over ℂ: the source's
+`freq_response` body at a real frequency evaluates the two polynomials at `exp(-jω)`, and the
+source's `dft` body is the defining sum (`dft_eq_sum`). -/
+theorem src_complex (f : Filt ℂ) (ω : ℝ) (blk : List ℂ) (freqs : List ℝ) (normalize : Bool) :
+    ALV.Gen.C12.LinearFilter_freq_response cisC f ω = freqResponse f (Complex.exp (-(Complex.I * ω))) ∧
+    ALV.Gen.C12.dft cisC blk freqs normalize =
+      if normalize = true ∧ blk.length = 0 ∧ freqs ≠ [] then none
+      else some (freqs.map fun f : ℝ =>
+        (∑ n ∈ range blk.length, blk.getD n 0 * Complex.exp (-(Complex.I * n * f)))
+          / (if normalize then (blk.length : ℂ) else 1)) := by
+  refine ⟨?_, ?_⟩
+  · rw [src_linear_freq_response_is_model]
+    show freqResponse f (cisC.pt ω) = _
+    rw [cisC_pt]
+  · rw [src_dft_is_model, cisC_kern, dft_eq_sum]
+
 /-! ### non-vacuity: hypotheses are satisfiable, statements speak about non-trivial inputs -/
 
 example : respOfFilter [(1 : ℚ), 2, 3] [1, 1/2] 1 = Resp.val 4 := by decide +kernel
@@ -853,6 +946,12 @@ example : C04.fspec [(1 : ℚ), 2] [] 1 0 [] [] ((List.range 4).map fun k => pw 
 example : dft (fun (w : ℚ) n => pw w n) (List.zipWith (fun x y => 3 * x + y) [1, 2] [0, 5]) [1, -1] true
     = some [7, -4] ∧ dft (fun (w : ℚ) n => pw w n) [1, 2] [1, -1] true = some [3/2, -1/2] ∧
       dft (fun (w : ℚ) n => pw w n) [0, 5] [1, -1] true = some [5/2, -5/2] := by decide +kernel     -- 11e: 3·(3/2) + 5/2 = 7
+example : ALV.Gen.C12.dft (⟨fun s n (w : ℚ) => if s = -1 then pw w n else 0⟩ : CExp ℚ ℚ) [1, 2, 3, 4] [1, -1] true
+    = some [5/2, -1/2] := by decide +kernel                                                       -- 12d on a block
+example : ALV.Gen.C12.LinearFilter_freq_response (⟨fun _ _ (w : ℚ) => w⟩ : CExp ℚ ℚ) ⟨[(0, 1), (1, 2)], [(0, 1), (1, 1)]⟩ 1
+    = some (3/2) := by decide +kernel                                                             -- 12a: (1 + 2w)/(1 + w) at w = 1
+example : ALV.Gen.C12.CascadeFilter_freq_response (fun (m : Bank ℚ) (w : ℚ) => Bank.resp w m)
+    [.filt [1, 1] [1], .filt [2] [1, 1]] 1 = Resp.val 2 := by decide +kernel                      -- 12b
 
 end ALV.Props.C12
 
